@@ -231,6 +231,7 @@ def tensor_case_input(rng):
     features = []
     for attempt in range(8):
         features = []
+        tensor_case_input.parts = None
         d = kit.rand_diagram(rng, rng.randint(0, max(1, 4 - attempt // 2)),
                              width=2)
         r = rng.random()
@@ -284,8 +285,23 @@ def tensor_case_input(rng):
                 # NB: Sum >> diagram comes back as a monoidal.Sum (no eval)
                 d = d >> kit.rand_diagram(rng, 1, dom=as_dim(d.cod), width=2)
                 features.append(">>tail")
+            elif rng.random() < .4:
+                # a plain diagram tensored with a sum, the sum on the RIGHT or on
+                # the left (the operands have different wire types in general)
+                side = kit.rand_diagram(rng, rng.randint(1, 2), width=2)
+                if rng.random() < .6:
+                    parts = (side, d)
+                    d = side @ d
+                    features.append("plain@sum")
+                else:
+                    parts = (d, side)
+                    d = d @ side
+                    features.append("sum@plain")
+                if ke.max_width(d, ke.DataInterp()) <= WIDTH_CAP:
+                    tensor_case_input.parts = parts
         if ke.max_width(d, ke.DataInterp()) <= WIDTH_CAP:
             return d, features
+    tensor_case_input.parts = None
     return kit.id(kit.rand_ty(rng, 2)), []
 
 
@@ -572,6 +588,24 @@ def tensor_case(rng, ctx):
     interp = ke.DataInterp()
     reference = ke.evaluate(d, interp)
     dom_wires, cod_wires = interp.ty_wires(d.dom), interp.ty_wires(d.cod)
+    parts = tensor_case_input.parts
+    if parts is not None:
+        # the reference of `left @ right` comes from the OPERANDS, not from the
+        # terms of the object the library built out of them
+        by_parts = numpy.kron(ke.evaluate(parts[0], interp),
+                              ke.evaluate(parts[1], interp))
+        ctx.expect("eval-equals-kron-eval",
+                   numpy.shape(by_parts) == numpy.shape(reference)
+                   and numpy.allclose(by_parts, reference, rtol=1e-9, atol=1e-9)
+                   and interp.ty_wires(parts[0].dom) + interp.ty_wires(parts[1].dom)
+                   == dom_wires
+                   and interp.ty_wires(parts[0].cod) + interp.ty_wires(parts[1].cod)
+                   == cod_wires,
+                   via="operands of @ vs the terms of the returned sum",
+                   left=lambda: safe_repr(parts[0], 400),
+                   right=lambda: safe_repr(parts[1], 400),
+                   result=lambda: safe_repr(d, 600), features=features)
+        ctx.count("tensor_of_a_diagram_and_a_sum_checked_against_operands")
     is_sum = isinstance(d, _K["cat"].Sum)
     kinds = sorted({type(b).__name__ + ("+" if b.is_dagger else "")
                     for t in (d.terms if is_sum else [d])
@@ -602,6 +636,23 @@ def tensor_case(rng, ctx):
     judge(ctx, "eval-equals-kron-eval", explicit, reference, dom_wires,
           cod_wires, via="explicit functor", style=style, ob_as=ob_as,
           **witness)
+    if is_sum and d.terms:
+        # history: the same Sum object after it has been an operand of +, @, >>
+        # (the results are dropped): it still evaluates to what it did before
+        try:
+            d + d.terms[0]
+            d.terms[0] + d
+            d @ tensor.Id(tensor.Dim(2))
+            d >> tensor.Id(d.cod)
+        except Exception as err:
+            ctx.count("sum_operand_use_raised_" + type(err).__name__)
+        judge(ctx, "eval-equals-kron-eval", F(d), reference, dom_wires, cod_wires,
+              via="explicit functor", history="sum reused after being an operand",
+              **witness)
+        if value is not None:
+            judge(ctx, "eval-equals-kron-eval", d.eval(), reference, dom_wires,
+                  cod_wires, history="sum reused after being an operand", **witness)
+        ctx.count("sums_re_evaluated_after_use_as_operand")
     if value is not None:
         try:
             same = numpy.shape(value.array) == numpy.shape(explicit.array)\
